@@ -2,6 +2,7 @@ import argparse
 import dis
 import importlib.util
 import pathlib
+import tokenize
 from json import dumps
 from os import linesep
 from types import CodeType
@@ -85,7 +86,10 @@ def main():
         source = eval(eval_, {"linesep": linesep})
         code = compile(cast(str, source), "<string>", "exec")
     elif file is not None:
-        source = file.read_text()
+        # Decode the file like Python does, using a byte order mark or an encoding
+        # declaration if there is one
+        with tokenize.open(file) as f:
+            source = f.read()
         code = compile(cast(str, source), str(file), "exec")
     elif cmd is not None:
         # replace escaped newlines with newlines
